@@ -15,6 +15,14 @@ use serde::{Deserialize, Serialize};
 
 pub const VERIF_DIR: &str = "/verif";
 
+/// Output root: /verif, or $OKV_OUT_DIR for development copies of the harness (never set by registered commands).
+pub fn out_dir() -> PathBuf {
+    match std::env::var("OKV_OUT_DIR") {
+        Ok(d) if !d.is_empty() => PathBuf::from(d),
+        _ => PathBuf::from(VERIF_DIR),
+    }
+}
+
 #[derive(Clone, Copy, PartialEq, Eq, Debug)]
 pub enum Tier {
     Quick,
@@ -423,7 +431,7 @@ fn self_exe() -> PathBuf {
 }
 
 pub fn scratch_root() -> PathBuf {
-    let p = PathBuf::from(VERIF_DIR).join("target").join("scratch");
+    let p = out_dir().join("target").join("scratch");
     std::fs::create_dir_all(&p).ok();
     p
 }
@@ -673,7 +681,7 @@ pub fn check_main(def: &CheckDef, tier: Tier) -> i32 {
     let mut exit = 0;
     let mut reported = 0u64;
     let mut known_lines = vec![];
-    let replay_dir = PathBuf::from(VERIF_DIR).join("replays").join(def.id);
+    let replay_dir = out_dir().join("replays").join(def.id);
     for (sig, v) in &stats.violations {
         let known = findings.iter().find(|f| f.property == def.id && f.status == "known" && f.sig == *sig);
         if let Some(f) = known {
@@ -770,7 +778,7 @@ fn write_evidence(def: &CheckDef, tier: Tier, seed: u64, stats: &Stats, wall: f6
         "wall_s": wall,
         "violations": reported,
     });
-    let dir = PathBuf::from(VERIF_DIR).join("evidence");
+    let dir = out_dir().join("evidence");
     std::fs::create_dir_all(&dir).ok();
     let p = dir.join(format!("{}.json", def.id));
     let tmp = dir.join(format!("{}.json.tmp", def.id));
